@@ -315,6 +315,8 @@ structure Opts where
   force : Bool
   noSparse : Bool
   noWarn : Bool
+  /-- `--single-stream` -/
+  single : Bool
   deriving Repr
 
 /-- Everything the tool learns about one input file from liblzma and from its own format detection. -/
@@ -326,7 +328,8 @@ structure FileIn where
   /-- the value that ended that loop -/
   initRet : Ret
   steps : List Step
-  allowTrailing : Bool
+  /-- the detected format is .lz (`FORMAT_LZIP`) -/
+  isLzip : Bool
   trailing : Bool
   /-- the raw input (passthru mode only) -/
   raw : List UInt8
@@ -343,8 +346,19 @@ structure FileRes where
   createdTrace : List Ev
   deriving Repr
 
-/-- `coder_run()` for one file when decompressing or testing. -/
-def xzFile (cfg : Cfg) (o : Opts) (fi : FileIn) (out : Dest) : FileRes :=
+/-- `allow_trailing_input = false;` — the FIRST statement of `coder_init()`: the static variable is reset for every
+    file, whatever the previous file left in it. -/
+def resetAllowTrailing (_previous : Bool) : Bool := false
+
+/-- The value of the static `allow_trailing_input` after `coder_init()` for this file, given the value the previous file
+    of the same invocation left behind: reset, then `--single-stream` sets it, then a detected .lz file sets it. -/
+def coderInitFlag (o : Opts) (fi : FileIn) (previous : Bool) : Bool :=
+  let a := resetAllowTrailing previous
+  let a := if o.single then true else a
+  if fi.fmtKnown && fi.isLzip then true else a
+
+/-- `coder_run()` for one file when decompressing or testing, with `allow_trailing_input` as `coder_init` left it. -/
+def xzFileWith (cfg : Cfg) (o : Opts) (fi : FileIn) (out : Dest) (allowTrailing : Bool) : FileRes :=
   let nothing (msgs : List Msg) : FileRes := { out := out, trace := [], msgs := msgs, created := none, createdTrace := [] }
   let run (r : CoderRes) (extra : List Msg) : FileRes :=
     if o.mode == .test then nothing (extra ++ r.msgs)
@@ -365,7 +379,14 @@ def xzFile (cfg : Cfg) (o : Opts) (fi : FileIn) (out : Dest) : FileRes :=
   else
     let warns := List.replicate fi.initWarn Msg.warning
     if fi.initRet != .ok && fi.initRet != .streamEnd then nothing (warns ++ [.error])
-    else run (coderNormal cfg fi.allowTrailing fi.trailing fi.steps []) warns
+    else run (coderNormal cfg allowTrailing fi.trailing fi.steps []) warns
+
+/-- The trailing-input permission in force for a file processed on its own. -/
+def allowOf (o : Opts) (fi : FileIn) : Bool := coderInitFlag o fi false
+
+/-- A single-file invocation. -/
+def xzFile (cfg : Cfg) (o : Opts) (fi : FileIn) (out : Dest) : FileRes :=
+  xzFileWith cfg o fi out (allowOf o fi)
 
 /-! ### Exit status -/
 
@@ -397,12 +418,25 @@ structure RunRes where
   createdTraces : List (List Ev)
   deriving Repr
 
-/-- `main()`: the files one after the other on the same standard output. -/
-def xzRun (cfg : Cfg) (o : Opts) : List FileIn → Dest → RunRes
+/-- `main()`: the files one after the other on the same standard output; the static `allow_trailing_input` is carried
+    from file to file (and reset by each `coder_init`). -/
+def xzRunFrom (cfg : Cfg) (o : Opts) : Bool → List FileIn → Dest → RunRes
+  | _, [], out => { out := out, trace := [], msgs := [], created := [], createdTraces := [] }
+  | previous, fi :: rest, out =>
+    let flag := coderInitFlag o fi previous
+    let r := xzFileWith cfg o fi out flag
+    let rr := xzRunFrom cfg o flag rest r.out
+    { out := rr.out, trace := r.trace ++ rr.trace, msgs := r.msgs ++ rr.msgs,
+      created := r.created :: rr.created, createdTraces := r.createdTrace :: rr.createdTraces }
+
+def xzRun (cfg : Cfg) (o : Opts) (files : List FileIn) (out : Dest) : RunRes := xzRunFrom cfg o false files out
+
+/-- SPECIFICATION: every file handled as if it were the only one (fold of single-file runs over the same standard output). -/
+def xzRunFold (cfg : Cfg) (o : Opts) : List FileIn → Dest → RunRes
   | [], out => { out := out, trace := [], msgs := [], created := [], createdTraces := [] }
   | fi :: rest, out =>
     let r := xzFile cfg o fi out
-    let rr := xzRun cfg o rest r.out
+    let rr := xzRunFold cfg o rest r.out
     { out := rr.out, trace := r.trace ++ rr.trace, msgs := r.msgs ++ rr.msgs,
       created := r.created :: rr.created, createdTraces := r.createdTrace :: rr.createdTraces }
 
